@@ -18,6 +18,7 @@ import (
 	"time"
 
 	"github.com/GoogleCloudPlatform/grpc-gcp-go/grpcgcp/multiendpoint"
+	"github.com/anishathalye/porcupine"
 
 	"verif.local/sim/simkit"
 	"verif.local/vsync/kern"
@@ -339,7 +340,22 @@ func (mo *model) applySetList(ms []member, list []string, now time.Duration) []m
 
 // ---------------------------------------------------------------- run
 
+// histOp is one operation of a concurrent burst, stamped with kernel step
+// numbers (global event sequence), for the linearizability check.
+type histOp struct {
+	Kind     int // OpAvail, OpSetList, OpCurrent
+	E        string
+	Up       bool
+	List     []string
+	Out      string
+	Err      bool
+	Call     int64
+	Ret      int64
+	Returned bool
+}
+
 type sim struct {
+	lin    []*histOp
 	plan   *Plan
 	k      *kern.Kernel
 	me     multiendpoint.MultiEndpoint
@@ -437,15 +453,143 @@ func (s *sim) drained() bool {
 //go:norace
 func Run(t *testing.T, plan *Plan, src *simkit.Source, logOn bool) *simkit.Result {
 	res := &simkit.Result{}
+	var s *sim
 	h := simkit.Bubble(t, func() {
-		s := &sim{plan: plan, res: res}
+		s = &sim{plan: plan, res: res}
 		s.run(src, logOn)
 	})
 	if h != "" && res.Harness == "" {
 		res.Harness = h
 	}
 	res.Tape = src.Recorded()
+	// Linearizability of the concurrent burst against the sequential statement
+	// (no timers involved: recovery timeout and switching delay both zero). Runs
+	// outside the bubble: porcupine uses real time for its timeout.
+	if s != nil && plan.Concurrent && plan.RMs == 0 && plan.DMs == 0 && res.Harness == "" && len(res.Violations) == 0 && len(s.lin) > 0 {
+		s.checkLinearizable(res)
+	}
 	return res
+}
+
+//go:norace
+func (s *sim) linOp(h *histOp) *histOp {
+	h.Call = int64(s.k.Steps())
+	s.lin = kern.Push(s.lin, h)
+	return h
+}
+
+//go:norace
+func (s *sim) linRet(h *histOp) {
+	h.Ret = int64(s.k.Steps()) + 1
+	h.Returned = true
+}
+
+type linState struct {
+	list  string // endpoints joined by ","
+	avail string // sorted available endpoints joined by ","
+	cur   string
+}
+
+//go:norace
+func linRule(list []string, avail map[string]bool, cur string) string {
+	for _, e := range list {
+		if avail[e] {
+			return e
+		}
+	}
+	if idx(list, cur) < 0 {
+		return list[0]
+	}
+	return cur
+}
+
+// checkLinearizable: the recorded history must be explainable by SOME order of
+// its operations that respects real-time precedence, under the sequential
+// statement (R = D = 0): availability reports set a status, list replacements
+// keep the statuses of kept endpoints, Current() is the highest-priority
+// available endpoint, else unchanged (the list's first endpoint if removed).
+//
+//go:norace
+func (s *sim) checkLinearizable(res *simkit.Result) {
+	for _, h := range s.lin {
+		if !h.Returned {
+			return // an operation never returned: judged elsewhere (deadlock)
+		}
+	}
+	if len(s.lin) > 40 {
+		return
+	}
+	init := linState{list: strings.Join(names(s.plan.Init), ","), cur: names(s.plan.Init)[0]}
+	model := porcupine.Model{
+		Init: func() interface{} { return init },
+		Step: func(st, in, out interface{}) (bool, interface{}) {
+			state := st.(linState)
+			h := in.(*histOp)
+			list := strings.Split(state.list, ",")
+			avail := map[string]bool{}
+			if state.avail != "" {
+				for _, e := range strings.Split(state.avail, ",") {
+					avail[e] = true
+				}
+			}
+			switch h.Kind {
+			case OpCurrent:
+				return h.Out == state.cur, state
+			case OpAvail:
+				if idx(list, h.E) >= 0 {
+					if h.Up {
+						avail[h.E] = true
+					} else {
+						delete(avail, h.E)
+					}
+				}
+			case OpSetList:
+				if len(h.List) == 0 {
+					return h.Err, state // rejected, nothing changes
+				}
+				if h.Err {
+					return false, state
+				}
+				for e := range avail {
+					if idx(h.List, e) < 0 {
+						delete(avail, e)
+					}
+				}
+				list = h.List
+			}
+			var av []string
+			for e := range avail {
+				av = append(av, e)
+			}
+			sort.Strings(av)
+			ns := linState{list: strings.Join(list, ","), avail: strings.Join(av, ","), cur: linRule(list, avail, state.cur)}
+			return true, ns
+		},
+		Equal: func(a, b interface{}) bool { return a.(linState) == b.(linState) },
+	}
+	var ops []porcupine.Operation
+	for i, h := range s.lin {
+		ops = append(ops, porcupine.Operation{ClientId: i, Input: h, Call: h.Call, Output: nil, Return: h.Ret})
+	}
+	res.Count("probe:linearizability_checked", 1)
+	switch porcupine.CheckOperationsTimeout(model, ops, 3*time.Second) {
+	case porcupine.Illegal:
+		var desc []string
+		for _, h := range s.lin {
+			switch h.Kind {
+			case OpCurrent:
+				desc = append(desc, fmt.Sprintf("[%d,%d] Current()=%s", h.Call, h.Ret, h.Out))
+			case OpAvail:
+				desc = append(desc, fmt.Sprintf("[%d,%d] avail(%s,%v)", h.Call, h.Ret, h.E, h.Up))
+			case OpSetList:
+				desc = append(desc, fmt.Sprintf("[%d,%d] setlist(%v) err=%v", h.Call, h.Ret, h.List, h.Err))
+			}
+		}
+		res.Violations = append(res.Violations, simkit.Violation{Property: "C13", Rule: "not-linearizable", Sig: "C13|not-linearizable|r=false|d=false",
+			Msg: "the concurrent history has no linearization under the sequential statement (initial list " + init.list + "): " + strings.Join(desc, "; "), Op: len(s.plan.Ops)})
+	case porcupine.Unknown:
+		res.Count("probe:linearizability_timeout", 1) // inconclusive: never reported
+	}
 }
 
 //go:norace
@@ -843,21 +987,35 @@ func (s *sim) runConcurrent(src *simkit.Source) {
 		case OpAvail:
 			e := universe[o.E%len(universe)]
 			s.hint()
-			s.k.Spawn("SetEndpointAvailability", 0, nil, func() { kern.HBAcquire(&s.pub); s.me.SetEndpointAvailability(e, o.Up) })
+			h := s.linOp(&histOp{Kind: OpAvail, E: e, Up: o.Up})
+			s.k.Spawn("SetEndpointAvailability", 0, nil, func() {
+				kern.HBAcquire(&s.pub)
+				s.me.SetEndpointAvailability(e, o.Up)
+				s.linRet(h)
+			})
 		case OpSetList:
 			l := names(o.List)
 			if len(l) > 0 {
 				lists = append(lists, l)
 			}
 			s.hint()
-			s.k.Spawn("SetEndpoints", 0, nil, func() { kern.HBAcquire(&s.pub); _ = s.me.SetEndpoints(append([]string{}, l...)) })
+			h := s.linOp(&histOp{Kind: OpSetList, List: append([]string{}, l...)})
+			s.k.Spawn("SetEndpoints", 0, nil, func() {
+				kern.HBAcquire(&s.pub)
+				err := s.me.SetEndpoints(append([]string{}, l...))
+				h.Err = err != nil
+				s.linRet(h)
+			})
 		case OpAdvance:
 			s.k.Advance(time.Duration(o.Ms) * time.Millisecond)
 		default:
 			s.hint()
+			h := s.linOp(&histOp{Kind: OpCurrent})
 			s.k.Spawn("Current", 0, nil, func() {
 				kern.HBAcquire(&s.pub)
 				x := s.me.Current()
+				h.Out = x
+				s.linRet(h)
 				ok := false
 				for _, l := range lists {
 					if idx(l, x) >= 0 {
@@ -879,6 +1037,12 @@ func (s *sim) runConcurrent(src *simkit.Source) {
 			s.vio("C13", "deadlock", "", t.Name+" blocked at quiescence: "+kern.OwnerInfo(t.WaitLock()))
 			break
 		}
+	}
+	// final observation of the burst (pins the state the linearization must end in)
+	if !s.stop {
+		h := s.linOp(&histOp{Kind: OpCurrent})
+		h.Out = s.current()
+		s.linRet(h)
 	}
 	// Settling pass: after the concurrent burst the object must still behave by
 	// the statement. The list is replaced and every endpoint reported serially,
